@@ -1,0 +1,64 @@
+//go:build verif
+
+package store
+
+// Contracts for the govc verifier (see /verif/DESIGN.md). Comment-only: declares nothing.
+
+// ---- C12: key algebra of the etcd backend ------------------------------------------------------
+// ident(x): a path identifier - non-empty, no '/', not '.' or '..' (path.Join would rewrite others).
+// cleanRoot(r) (uninterpreted, see the path.Join model): path.Clean(r) == r and r is not "" or "/".
+
+//@ spec ident(x string) bool = x != "" && !contains(x, "/") && x != "." && x != ".."
+//@ spec infoKey(r, t string) string = r + "/task_info/" + t
+//@ spec posPrefix(r string) string = r + "/task_position/"
+//@ spec posTaskPrefix(r, t string) string = r + "/task_position/" + t + "/"
+//@ spec posKey(r, t string, c int64) string = r + "/task_position/" + t + "/" + itoa(c)
+
+//@ func getTaskInfoPrefix
+//@   props C12
+//@   assumes cleanRoot(rootPath)
+//@   ensures result == rootPath + "/task_info/"
+//@   modifies nothing
+//@   panics never
+
+//@ func getTaskInfoKey
+//@   props C12
+//@   assumes cleanRoot(rootPath)
+//@   requires ident(taskID)
+//@   ensures result == infoKey(rootPath, taskID)
+//@   modifies nothing
+//@   panics never
+
+//@ func getTaskCollectionPositionPrefix
+//@   props C12
+//@   assumes cleanRoot(rootPath)
+//@   ensures result == posPrefix(rootPath)
+//@   modifies nothing
+//@   panics never
+
+//@ func getTaskCollectionPositionPrefixWithTaskID
+//@   props C12
+//@   assumes cleanRoot(rootPath)
+//@   requires ident(taskID)
+//@   ensures result == posTaskPrefix(rootPath, taskID)
+//@   modifies nothing
+//@   panics never
+
+//@ func getTaskCollectionPositionKey
+//@   props C12
+//@   assumes cleanRoot(rootPath)
+//@   requires ident(taskID)
+//@   ensures result == posKey(rootPath, taskID, collectionID)
+//@   modifies nothing
+//@   panics never
+
+// K1 injectivity (posKeyS: the collection id rendered as a '/'-free string s; decimal rendering of
+// an int64 is injective and '/'-free - a fact about strconv.FormatInt that is assumed, not proved)
+//@ spec posKeyS(r, t, s string) string = r + "/task_position/" + t + "/" + s
+//@ lemma K1_infoKeyInjective C12: forall r string, t1 string, t2 string :: infoKey(r, t1) == infoKey(r, t2) ==> t1 == t2
+//@ lemma K1_posKeyInjective C12: forall r string, t1 string, t2 string, s1 string, s2 string :: ident(t1) && ident(t2) && !contains(s1, "/") && !contains(s2, "/") && posKeyS(r, t1, s1) == posKeyS(r, t2, s2) ==> t1 == t2 && s1 == s2
+// K2 prefix isolation: the scan prefix of task t1 only covers keys of t1 (ids that merely share a prefix are not touched)
+//@ lemma K2_taskPrefixIsolation C12: forall r string, t1 string, t2 string, s string :: ident(t1) && ident(t2) && hasPrefix(posKeyS(r, t2, s), posTaskPrefix(r, t1)) ==> t1 == t2
+//@ lemma K2_infoVsPosition C12: forall r string, t1 string, t2 string, s string :: ident(t1) && ident(t2) ==> !hasPrefix(infoKey(r, t1), posPrefix(r)) && !hasPrefix(posKeyS(r, t2, s), r + "/task_info/")
+// K3 tenant isolation: for roots where neither is a '/'-boundary prefix of the other, no key of r2 has a scan prefix of r1
+//@ lemma K3_tenantIsolation C12: forall r1 string, r2 string, t string, s string :: ident(t) && !hasPrefix(r2 + "/", r1 + "/") && !hasPrefix(r1 + "/", r2 + "/") ==> !hasPrefix(posKeyS(r2, t, s), posPrefix(r1)) && !hasPrefix(infoKey(r2, t), r1 + "/task_info/")
